@@ -119,16 +119,15 @@ def perturb_params(params, fold=1, lower_bound=None, upper_bound=None):
     """
     pnew = params * 2**(fold * (2*numpy.random.uniform(size=len(params))-1))
     if lower_bound is not None:
-        for ii,bound in enumerate(lower_bound):
-            if bound is None:
-                lower_bound[ii] = -numpy.inf
+        # Replace None by -inf, without altering the list passed in.
+        lower_bound = [-numpy.inf if bound is None else bound
+                       for bound in lower_bound]
         lb = numpy.asarray(lower_bound, dtype=float)
         # Stay 1% inside the bound, whatever its sign.
         pnew = numpy.maximum(pnew, numpy.where(lb > 0, 1.01*lb, 0.99*lb))
     if upper_bound is not None:
-        for ii,bound in enumerate(upper_bound):
-            if bound is None:
-                upper_bound[ii] = numpy.inf
+        upper_bound = [numpy.inf if bound is None else bound
+                       for bound in upper_bound]
         ub = numpy.asarray(upper_bound, dtype=float)
         pnew = numpy.minimum(pnew, numpy.where(ub > 0, 0.99*ub, 1.01*ub))
     return pnew
